@@ -43,6 +43,19 @@ func Match(patterns []string, mode Mode, s string) (string, error) {
 	if mode&Suffix != 0 && mode&Prefix != 0 {
 		return "", NoMatch
 	}
+	if len(patterns) > 1 {
+		// in an alternation a malformed pattern would borrow text from its
+		// neighbours, and the first alternative that matches would win
+		// over the shortest or longest one
+		for _, pat := range patterns {
+			if _, err := compile([]string{pat}, mode); err != nil {
+				return "", err
+			}
+		}
+		if mode&(Prefix|Suffix) != 0 {
+			return matchEach(patterns, mode, s)
+		}
+	}
 	rx, err := compile(patterns, mode)
 	if err != nil {
 		return "", err
@@ -63,6 +76,29 @@ func Match(patterns []string, mode Mode, s string) (string, error) {
 		return m[1], nil
 	}
 	return "", NoMatch
+}
+
+// matchEach matches the patterns one by one and returns the shortest or
+// the longest match.
+func matchEach(patterns []string, mode Mode, s string) (string, error) {
+	var match string
+	err := NoMatch
+	for _, pat := range patterns {
+		switch m, e := Match([]string{pat}, mode, s); {
+		case e == NoMatch:
+		case e != nil:
+			return "", e
+		case err != nil:
+			match, err = m, nil
+		case mode&Smallest != 0 && mode&Largest == 0:
+			if len(m) < len(match) {
+				match = m
+			}
+		case len(m) > len(match):
+			match = m
+		}
+	}
+	return match, err
 }
 
 // Glob returns paths that matches pattern.
